@@ -7,6 +7,7 @@
 -/
 import WsVerif.Props.C04
 import WsVerif.Props.C06
+import WsVerif.Proofs.Reader
 namespace Ws.C16
 open Ws Ws.Spec
 
@@ -25,6 +26,47 @@ theorem cut_between_fragments_is_error (r : Rd) (s : Src) (cx : Ctx) (cb : Optio
   have he : e = .eof := h4.mpr ⟨hempty, hfin⟩
   unfold Rd.nextFrame readHeaderUtil
   simp [h1, he, hfrag]
+
+/-! ### whole read loops over a cut stream -/
+
+open Ws.RdProof
+
+/-- **Reads of a cut payload end in a non-EOF error.** The reader is inside a frame (no UTF-8
+    layer) and the transport holds fewer bytes than the frame still announces — the peer or the
+    network cut it. For every chunking and every sequence of caller buffers: what Read hands out is
+    a genuine unmasked prefix of the bytes that did arrive, the only errors it can report are
+    io.ErrUnexpectedEOF (transport ended) or the transport's failure — never io.EOF, so no
+    read-until-EOF helper can take the partial message for a whole one — and one of them is
+    reported after at most (bytes + chunks + 1) Reads. -/
+theorem cut_payload_never_succeeds (ks : List Nat) (hpos : ∀ k ∈ ks, 0 < k) (r : Rd) (s : Src) (cx : Ctx)
+    (h : CutFrame r s) :
+    ∃ raw out e r' s', reads r s cx ks = some (out, e, r', s', cx) ∧ out = plainOf r raw ∧ raw ++ s'.bytes = s.bytes
+      ∧ e ≠ some .eof
+      ∧ (mu s < ks.length → e = some .ueof ∨ e = some .fail) := by
+  obtain ⟨raw, out, e, r', s', h1, h2, h3, h4⟩ := reads_cut ks hpos r s cx h
+  refine ⟨raw, out, e, r', s', h1, h2, h3, ?_, ?_⟩
+  · rcases h4 with ⟨he, _⟩ | ⟨he, _⟩ | ⟨he, _⟩ <;> rw [he] <;> simp
+  · intro hl
+    rcases h4 with ⟨_, hm⟩ | ⟨he, _⟩ | ⟨he, _⟩
+    · omega
+    · exact Or.inl he
+    · exact Or.inr he
+
+/-- **A stream ending between the fragments of a message** (after any valid prefix of the message
+    has been read): the Read that has to fetch the next fragment reports io.ErrUnexpectedEOF, never
+    a clean end of stream. -/
+theorem stream_ends_between_fragments (ao skip : Bool) (st maxF : Nat) (r : Rd) (s : Src) (cx : Ctx) (k : Nat)
+    (hend : AtEnd ao skip st maxF [] r s []) (hfin : s.fin = .eof) :
+    ∃ r1 s1 cx1, r.read s cx k none = some ([], 0, some .ueof, r1, s1, cx1) := by
+  have hfrag : r.fragmented = true := by simp [Rd.fragmented, hend.state, hend.common.stF]
+  have h := cut_between_fragments_is_error r s cx none hfrag hend.bytes hfin
+  rcases hn : r.nextFrame s cx none with ⟨hd, e, r1, s1, cx1⟩
+  rw [hn] at h
+  simp only at h
+  subst h
+  refine ⟨r1, s1, cx1, ?_⟩
+  unfold Rd.read
+  simp [hend.has, hfrag, hn]
 
 /-! ### sticky destination error -/
 
